@@ -264,6 +264,10 @@ func validatorListCopy(valsList []*Validator) []*Validator {
 
 // Copy each validator into a new ValidatorSet.
 func (vs *ValidatorSet) Copy() *ValidatorSet {
+	if vs == nil {
+		// the genesis state has no LastValidators
+		return nil
+	}
 	return &ValidatorSet{
 		Validators:       validatorListCopy(vs.Validators),
 		Proposer:         vs.Proposer,
